@@ -157,11 +157,13 @@ def disk_history(args):
     return {"id": hid, "order": list(order) if order else [], "events": events}
 
 
-KINDS = {"ML": (2, 0, 10), "BAS": (0, 0, 3), "ASC": (1, 255, 0)}
+# kind -> (file type, data type / ASCII flag, bytes the stored stream adds to the data).  A machine language file (type 2) has
+# preamble + postamble whatever its ASCII flag; any other type with the ASCII flag is stored bare; otherwise a 3-byte preamble.
+KINDS = {"ML": (2, 0, 10), "BAS": (0, 0, 3), "ASC": (1, 255, 0), "MLA": (2, 255, 10), "DAT": (1, 0, 3), "BASA": (0, 255, 0), "TXT": (3, 255, 0), "TXB": (3, 0, 3)}
 
 
 def disk_file(rnd, name, kind, stream_len, ext=None, content_kind="rand"):
     ftype, dtype, extra = KINDS[kind]
     n = max(0, stream_len - extra)
-    return mkfile(name, content(rnd, content_kind, n), ftype, dtype, rnd.choice([0x0E00, 0x3F00, 0x0000, 0xFFFF]) if kind == "ML" else 0,
-                  rnd.choice([0x0E10, 0x0000, 0xFF00]) if kind == "ML" else 0, ext=ext if ext is not None else ("BIN" if kind == "ML" else "BAS"))
+    return mkfile(name, content(rnd, content_kind, n), ftype, dtype, rnd.choice([0x0E00, 0x3F00, 0x0000, 0xFFFF]) if kind in ("ML", "MLA") else 0,
+                  rnd.choice([0x0E10, 0x0000, 0xFF00]) if kind in ("ML", "MLA") else 0, ext=ext if ext is not None else ("BIN" if kind in ("ML", "MLA") else "BAS"))
